@@ -404,6 +404,45 @@ fn verif_native_c08_ntv2_family() {
     assert!(fails.is_empty(), "C08.N.ntv2.family: FAILSET{{{}}} {} of {} files wrong ({} queries), first: {:?}", ids.join(","), fails.len(), 144, n, &fails[..fails.len().min(4)]);
 }
 
+//@n {"id":"C15.N.ntv2.cycles","props":["C15","C09"],"tier":"quick","bound":"6 generated NTv2 files with damaged hierarchies: a sub grid that is its own parent (alone, and next to a proper root), a duplicated sub grid name whose second record names the first as parent, a 2-cycle without root, a 2-cycle next to a root, a child naming a parent that does not exist; decoded and queried at 9 positions in a thread with a 20 s limit","text":"a damaged NTv2 hierarchy (self-parent, duplicate names, parent cycles, orphans) is rejected with an error or decodes to a grid whose queries terminate; it never hangs or panics"}
+#[test]
+fn verif_native_c15_ntv2_cycles() {
+    let mk = |name: &'static str, parent: &'static str, lat: (f64, f64), lon: (f64, f64), value: f32| Sub { name, parent, lat, lon, step: 1.0, value };
+    let files: Vec<(&str, Vec<Sub>)> = vec![
+        ("self-parent", vec![mk("AAAA", "AAAA", (50.0, 54.0), (8.0, 12.0), 1.0)]),
+        ("self-parent beside a root", vec![mk("ROOT", "NONE", (50.0, 54.0), (8.0, 12.0), 1.0), mk("AAAA", "AAAA", (51.0, 53.0), (9.0, 11.0), 2.0)]),
+        ("duplicate name, second is child of the first", vec![mk("AAAA", "NONE", (50.0, 54.0), (8.0, 12.0), 1.0), mk("AAAA", "AAAA", (51.0, 53.0), (9.0, 11.0), 2.0)]),
+        ("2-cycle without root", vec![mk("AAAA", "BBBB", (50.0, 54.0), (8.0, 12.0), 1.0), mk("BBBB", "AAAA", (51.0, 53.0), (9.0, 11.0), 2.0)]),
+        ("2-cycle beside a root", vec![mk("ROOT", "NONE", (50.0, 54.0), (8.0, 12.0), 1.0), mk("AAAA", "BBBB", (51.0, 53.0), (9.0, 11.0), 2.0), mk("BBBB", "AAAA", (51.0, 52.0), (9.0, 10.0), 3.0)]),
+        ("orphan", vec![mk("ROOT", "NONE", (50.0, 54.0), (8.0, 12.0), 1.0), mk("AAAA", "GONE", (51.0, 53.0), (9.0, 11.0), 2.0)]),
+    ];
+    let mut bad = Vec::new();
+    for (what, subs) in files {
+        let refs: Vec<&Sub> = subs.iter().collect();
+        let file = ntv2_family(false, &refs);
+        let (tx, rx) = std::sync::mpsc::channel();
+        std::thread::spawn(move || {
+            let r = catch_unwind(AssertUnwindSafe(|| {
+                if let Ok(g) = Ntv2Grid::new(&file) {
+                    for lat in [49.0, 51.5, 52.5] {
+                        for lon in [7.0, 9.5, 10.5] {
+                            let _ = g.at(&Coor4D::geo(lat, lon, 0.0, 0.0), 0.0);
+                            let _ = g.at(&Coor4D::geo(lat, lon, 0.0, 0.0), 0.5);
+                        }
+                    }
+                }
+            }));
+            let _ = tx.send(r.is_ok());
+        });
+        match rx.recv_timeout(std::time::Duration::from_secs(20)) {
+            Ok(true) => {}
+            Ok(false) => bad.push(format!("{what}: panics")),
+            Err(_) => bad.push(format!("{what}: does not return within 20 s")),
+        }
+    }
+    assert!(bad.is_empty(), "C15.N.ntv2.cycles: {} of 6 damaged files: {:?}", bad.len(), bad);
+}
+
 // ---------------------------------------------------------------------------------------------
 // BaseGrid interpolation: convexity and continuity (nonlinear float reasoning is beyond CBMC: the Kani convexity
 // harness did not finish in 1800 s)
